@@ -201,6 +201,8 @@ pub fn c11_one_over_length_vec<const N: usize>() {
         if len == 1 {
             check!(a[0].v != parent[0].v, "length 1: rate 1/1 flips the only gene");
         }
+        cover!(len == N, "full-length genome reachable");
+        cover!(len == 0, "empty genome reachable");
     }
 }
 #[cfg(kani)]
@@ -224,6 +226,7 @@ pub fn c11_one_over_length_bitstring<const N: usize>() {
             let Ok(b) = WithRate::new(1.0 / (len as f32)).mutate(Bitstring { bits: parent.clone() }, &mut r2);
             check!(a == b, "WithOneOverLength applies exactly the rate 1/length");
         }
+        cover!(len == N, "full-length genome reachable");
     }
 }
 #[cfg(kani)]
